@@ -473,7 +473,7 @@ TABLE['C16'] = dict(
     ])
 
 TABLE['C17'] = dict(
-    imports=[A + 'CacheThm', A + 'Glue', A + 'MomentsThm', A + 'MemoThm', A + 'ShareThm'],
+    imports=[A + 'CacheThm', A + 'Glue', A + 'MomentsThm', A + 'MemoThm', A + 'ShareThm', A + 'EpochKeyThm'],
     summary='Proved on the state-machine model of StateSpace caching (epoch, S, per-epoch cache, drop_S, drop_cache, first access of '
             'states): for EVERY history of operations every read of S returns the matrix of the epoch in force, with caching on or off; '
             'the number of recomputations is bounded; the repaired consumer (update_epoch before reading) is correct and the pre-fix '
@@ -481,6 +481,12 @@ TABLE['C17'] = dict(
             'pure evaluation (code_accumulate_pointwise). Partial: process pools (imap order) are a runtime parameter.',
     theorems=[
         ('refinement', 'PG.Cache.C17_refinement', 'every answer of every history equals the cache-free specification'),
+        ('epoch_key_sound', 'PG.EpochKey.key_sound_table', 'the CONCRETE cache key (what Epoch.__hash__ hashes): equal keys give the same table of sizes and rates to the transitions'),
+        ('epoch_key_cache', 'PG.EpochKey.cache_instantiated_table', 'the cache model instantiated with concrete epoch objects: after any history every S read is the matrix of the current epoch object itself'),
+        ('epoch_key_complete', 'PG.EpochKey.generated_updateDrops_iff', 'between two epochs of one demography update_epoch drops S exactly if some size or rate differs'),
+        ('epoch_key_order', 'PG.EpochKey.generated_same_key_order', 'all epochs of one generator run list their keys in the same order (so equal content gives equal keys)'),
+        ('epoch_key_ignores_time', 'PG.EpochKey.key_ignores_time', 'start and end time do not enter the key (documented)'),
+        ('epoch_key_combinations', 'PG.EpochKey.combinations_stale_history', 'hashing over combinations of sorted names (seeded twice independently): a reverse-direction rate change is not seen and the second read is stale'),
         ('read_at', 'PG.Cache.C17_getS_at', 'the i-th read returns compute(epoch after the first i operations)'),
         ('invariant', 'PG.Cache.inv_preserved', 'S and every cache entry are the true matrices of their epochs'),
         ('cache_off', 'PG.Cache.C17_no_cache', 'same with caching disabled'),
@@ -524,12 +530,21 @@ TABLE['C18'] = dict(
     ])
 
 TABLE['C19'] = dict(
-    imports=[A + 'InferenceThm', A + 'InferenceLabels', A + 'CacheThm', A + 'ShareThm'],
+    imports=[A + 'InferenceThm', A + 'InferenceLabels', A + 'CacheThm', A + 'ShareThm', A + 'LossThm'],
     summary='Proved with the optimiser as a parameter: _run stores the first minimum of the results, loss_inferred = min(loss_runs), the stored '
             'point attains it; add_run keeps the lower loss, concatenates losses, any merge order gives the global minimum; bootstraps append one '
             'row; create_run uses the given start values and rejects out-of-bounds ones (pre-fix variant refuted). Cache transparency is C17. '
-            'Partial: L-BFGS-B behaviour, recovery of generating parameters.',
+            'The loss functions (norms, Poisson likelihood) are zero / minimal exactly at the generating values, so a run that reaches the global minimum of an identifiable model on noise-free data reports the generating parameters. Partial: L-BFGS-B behaviour (that some run reaches the global minimum is a hypothesis).',
     theorems=[
+        ('loss_norm_zero_iff', 'PG.Loss.l1_eq_zero_iff', 'L1 loss is zero exactly when modelled = observed (same for Linf, squared L2: linf_eq_zero_iff, sqL2_eq_zero_iff)'),
+        ('loss_linf_zero_iff', 'PG.Loss.linf_eq_zero_iff', 'Linf'),
+        ('loss_sql2_zero_iff', 'PG.Loss.sqL2_eq_zero_iff', 'squared L2'),
+        ('loss_poisson_min_at_truth', 'PG.Loss.poissonNLL_min_at_truth', 'the negative Poisson log-likelihood of positive counts is minimal exactly at modelled = observed'),
+        ('loss_noise_free_recovered', 'PG.Loss.noise_free_recovered', 'noise-free data of an identifiable model: the generating parameter is the unique minimiser of the Poisson loss'),
+        ('loss_best_run_truth_poisson', 'PG.Loss.best_run_is_truth_poisson', 'with the best-run theorem: if some run reaches the global minimum, params_inferred is the generating parameter (Poisson loss)'),
+        ('loss_best_run_truth_norm', 'PG.Loss.best_run_is_truth_norm', 'the same for the norm losses; loss_inferred = 0'),
+        ('loss_skip_zero_identity', 'PG.Loss.poissonNLLSkip_eq', 'skipping empty classes (a seeded change) drops exactly the modelled mass of those classes'),
+        ('loss_skip_zero_wrong_parameter', 'PG.Loss.skip_variant_wrong_parameter', 'and then prefers a wrong parameter: minimiser 10 instead of the maximum-likelihood value 100/11 on a concrete scaling family'),
         ('best', 'PG.Inference.C19_best', 'after _run: first minimum, loss_inferred = min, params belong to it, loss_runs recorded'),
         ('first_minimum', 'PG.Inference.bestOf_spec', 'Python min(key=...) semantics: first minimal element'),
         ('merge', 'PG.Inference.C19_merge', 'merging runs in any order yields the global minimum and a permutation of the losses'),
